@@ -192,6 +192,74 @@ theorem full_table_untouched_by_handshakes (d : Disp) (addr : Nat) (h : Header) 
       · exact hd'
       · split <;> exact hd'
 
+/-! ### The connection id chosen for an outgoing connect is fresh -/
+
+/-- the ids the loop of `get_next_free_conn_id` visits -/
+def visited (id0 j : Nat) : List Nat := (List.range j).map (fun i => w16 (id0 + 2 * i))
+
+theorem visited_nodup (id0 j : Nat) (hj : j ≤ 32768) : (visited id0 j).Nodup := by
+  unfold visited
+  refine List.pairwise_map.2 (List.Pairwise.imp_of_mem ?_ List.pairwise_lt_range)
+  intro a b ha hb hab
+  simp only [List.mem_range] at ha hb
+  simp only [w16]
+  omega
+
+theorem loop_spec (fuel : Nat) (d : Disp) (addr : Nat) (hid : d.nextConnId < 65536) :
+    ∃ j, j ≤ fuel ∧ (nextFreeConnIdLoop fuel d addr).nextConnId = w16 (d.nextConnId + 2 * j) ∧
+      (nextFreeConnIdLoop fuel d addr).streams = d.streams ∧
+      (∀ i < j, d.hasKey { addr := addr, id := w16 (d.nextConnId + 2 * i) } = true) ∧
+      (j < fuel → (nextFreeConnIdLoop fuel d addr).hasKey { addr := addr, id := (nextFreeConnIdLoop fuel d addr).nextConnId } = false) := by
+  induction fuel generalizing d with
+  | zero => exact ⟨0, Nat.le_refl _, by simp [nextFreeConnIdLoop, w16]; omega, rfl, by intro i hi; omega, by intro h; omega⟩
+  | succ n ih =>
+    unfold nextFreeConnIdLoop
+    split
+    · rename_i hk
+      obtain ⟨j, hj, h1, h2, h3, h4⟩ := ih { d with nextConnId := w16 (d.nextConnId + 2) } (by simp only [w16]; omega)
+      refine ⟨j + 1, by omega, ?_, h2, ?_, ?_⟩
+      · rw [h1]; simp only [w16]; omega
+      · intro i hi
+        cases i with
+        | zero => simpa [w16, Nat.mod_eq_of_lt hid] using hk
+        | succ i =>
+          have := h3 i (by omega)
+          have he : w16 (w16 (d.nextConnId + 2) + 2 * i) = w16 (d.nextConnId + 2 * (i + 1)) := by simp only [w16]; omega
+          simpa [Disp.hasKey, keys, he] using this
+      · intro hlt
+        exact h4 (by omega)
+    · rename_i hk
+      exact ⟨0, by omega, by simp [w16, Nat.mod_eq_of_lt hid], rfl, by intro i hi; omega, by intro _; simpa using hk⟩
+
+/-- **The connection id chosen for a new outgoing connect is not in use with that peer**, provided fewer than
+32768 connections are live (then the bounded loop finds a free id of the required parity; with 32768 live
+same-parity ids for one peer the real loop would not terminate - unreachable below that many connections). -/
+theorem next_free_conn_id_is_free (d : Disp) (addr : Nat) (hid : d.nextConnId < 65536) (hlim : d.streams.length < 32768) :
+    (d.getNextFreeConnId addr).hasKey { addr := addr, id := (d.getNextFreeConnId addr).nextConnId } = false ∧
+    (d.getNextFreeConnId addr).streams = d.streams := by
+  obtain ⟨j, hj, h1, h2, h3, h4⟩ := loop_spec 32768 d addr hid
+  refine ⟨?_, h2⟩
+  by_cases hlt : j < 32768
+  · exact h4 hlt
+  · -- all 32768 ids of that parity are keys of `addr`: more keys than connections
+    exfalso
+    have hj' : j = 32768 := by omega
+    subst hj'
+    have hnd := visited_nodup d.nextConnId 32768 (Nat.le_refl _)
+    have hkeys : ((visited d.nextConnId 32768).map (fun id => ({ addr := addr, id := id } : Key))).Nodup := by
+      refine List.pairwise_map.2 (List.Pairwise.imp ?_ hnd)
+      intro a b hab hk
+      exact hab (by simpa using hk)
+    have hsub : (visited d.nextConnId 32768).map (fun id => ({ addr := addr, id := id } : Key)) ⊆ d.keys := by
+      intro k hk
+      simp only [visited, List.mem_map, List.mem_range] at hk
+      obtain ⟨id, ⟨i, hi, rfl⟩, rfl⟩ := hk
+      have := h3 i hi
+      simpa [Disp.hasKey] using this
+    have := List.Nodup.length_le_of_subset hkeys hsub
+    simp only [List.length_map, visited, List.length_range, keys] at this
+    omega
+
 /-! ### Non-vacuity: a concrete history in which two peers connect with the same connection id -/
 
 def syn (cid seq : Nat) : List Nat := Disp.ser (Disp.synHeader cid seq)
